@@ -8,6 +8,7 @@
 EXTENDS Frost, Json
 
 CONSTANTS Shapes, IdSets, KeyChoices, CoeffChoices, DeltaChoices, NewIds, Scenarios, MaxExtraH,
+          Sweep,        \* shape sweeps: the t, or all other, smallest identifiers help the largest one
           RandChoices, Msg, EMIT
 
 VARIABLES pc, sc
@@ -41,7 +42,8 @@ Plan ==
   /\ pc[1] = "plan"
   /\ \/ /\ "ok" \in Scenarios
         /\ \E H \in SUBSET IdSet : Card(H) >= sc.t /\ Card(H) <= sc.t + MaxExtraH /\
-             \E x \in (IdSet \ H) \cup (NewIds \ IdSet) :
+             (Sweep => H \in {{sc.ids[k] : k \in 1..sc.t}, {sc.ids[k] : k \in 1..(sc.n - 1)}}) /\
+             \E x \in (IdSet \ H) \cup (NewIds \ IdSet) : (Sweep => x = sc.ids[sc.n]) /\
              \E o \in CallerOrders(Sorted(H)) :
                 sc' = sc @@ [scen |-> "ok", H |-> o, x |-> x]
      \/ /\ "bad" \in Scenarios
